@@ -94,6 +94,8 @@ def harnesses(tier, seed):
         elif h["name"] == "values":
             vg = A.grids(6, 5) + A.grids(6, 6) if quick else [g for k in (5, 6, 7) for g in A.grids(8, k)]
             hs.append({"name": "values", "body": M.make_value_body(vg, c01.ALPHAS, PREFIX), "bound_text": h["bound_text"]})
+    hs.append({"name": "weaver-integral_match-in-every-state", "body": M.make_weaver_body(PREFIX, 3 if quick else 4),
+               "bound_text": "all programs over 12 Weaver operations to depth %d, then integral_match" % (3 if quick else 4)})
     kmax = 6 if quick else 8
     kgrids = [g for k in range(3, kmax + 1) for g in A.grids(10, k)]
     kimages = [("id", lambda v: F(v)), ("x/3+1/7", lambda v: F(v, 3) + F(1, 7)), ("5x/8-2", lambda v: F(5 * v, 8) - 2)]
